@@ -55,6 +55,7 @@ func svcCall(ci ssa.CallInstruction) (svc, method string, ok bool) {
 }
 
 func runC14(c *Ctx) {
+	c14R13(c)
 	r1 := c.R.Rule("R1", "K4 transaction + rollback discipline in every transactional orchestrator method", 40)
 	r2 := c.R.Rule("R2", "K3 guards: mutating service calls are dominated by the provisioned-by-API edge and the pipeline-not-running edge", 20)
 	p := c.W.Pkg(pOrch)
